@@ -353,12 +353,14 @@ package jen
 //@   implements Code.render
 //@   unfold null treeOK stable wfImp
 //@   loop 1 invariant lk: forall t string :: { mapof(lookup).val[t] } has(lookup, t) ==> (okRecv(lookup[t].k) && okRecv(lookup[t].v) && has(d, lookup[t].k) && d[lookup[t].k] == lookup[t].v)
+//@   loop 1 invariant [C16] keytext: forall t string :: { mapof(lookup).val[t] } has(lookup, t) ==> (exists im Imp :: t == R(lookup[t].k, nil, Fof(f), mkSt("", im)).out)
 //@   loop 1 invariant ks: forall j int :: { keys[j] } (0 <= j && j < len(keys)) ==> has(lookup, keys[j])
 //@   loop 1 invariant [C16] distinct: len(keys) == len(lookup)
 //@   loop 1 invariant fresh: lookup > old(alloc) && lookup != nil && (len(keys) > 0 ==> keys.arr > old(alloc)) && len(keys) <= cap(keys) && (len(keys) == 0 ==> keys.arr > old(alloc) || cap(keys) == 0)
 //@   loop 1 invariant file: regpre(f) && Fof(f) == old(Fof(f)) && stable(old(mapof(f.imports)), mapof(f.imports)) && $m == old(mapof(d))
 //@   loop 1 invariant wsame: written[w] == old(written[w]) && nwrites[w] == old(nwrites[w]) && failed[w] == old(failed[w])
 //@   loop 2 invariant lk: forall t string :: { mapof(lookup).val[t] } has(lookup, t) ==> (okRecv(lookup[t].k) && okRecv(lookup[t].v) && has(d, lookup[t].k) && d[lookup[t].k] == lookup[t].v)
+//@   loop 2 invariant [C16] keytext: forall t string :: { mapof(lookup).val[t] } has(lookup, t) ==> (exists im Imp :: t == R(lookup[t].k, nil, Fof(f), mkSt("", im)).out)
 //@   loop 2 invariant ks: forall j int :: { keys[j] } (0 <= j && j < len(keys)) ==> has(lookup, keys[j])
 //@   loop 2 invariant [C16,C07] ordered: forall i int, j int :: { keys[i], keys[j] } (0 <= i && i < j && j < len(keys)) ==> keys[i] <= keys[j]
 //@   loop 2 invariant fresh: lookup > old(alloc) && lookup != nil && (len(keys) > 0 ==> keys.arr > old(alloc))
